@@ -107,6 +107,10 @@ def patch_st(isa, cfg, data_ok=True, cfi=False, pdata=False, palign=False):
     if palign:
         # alignment directive inside a patch: no bytes, starts a block that carries an alignment entry
         toks += [st.fixed_dictionaries({"al": st.integers(0, 4)})]
+    else:
+        # everywhere else only `.balign 1`: it splits the patch's block (new block, fallthrough edge, alignment
+        # entry 1) without ever asking for padding, so positions stay those of the listing
+        toks += [st.fixed_dictionaries({"al": st.just(0)})]
     if cfi:
         toks += [st.fixed_dictionaries({"cfi": st.sampled_from(["adj+", "adj+", "adj-", "rem", "res"])})] * 2
     if terms:
@@ -1361,9 +1365,11 @@ def call_at_section_end(case: Case) -> bool:
     inserted": patches applied later at the same location are ignored."""
     exp = Expected(case)
     anchor = {}
+    anchor_end = {}
     for ed in case.edits:
         if ed.op != "delete":
             anchor.setdefault(ed.reg, {})[ed.b] = (ed.b, ed.i)
+            anchor_end.setdefault(ed.reg, {})[ed.b] = (ed.b, ed.i + ed.n, ed.n)
 
     def later_same_anchor(u, v):
         """is v a unit of a patch applied after u's patch at the same location?"""
@@ -1372,7 +1378,14 @@ def call_at_section_end(case: Case) -> bool:
         au = anchor.get(u.origin[1], {})
         av = anchor.get(v.origin[1], {})
         common = set(au.values()) & set(av.values())
-        return bool(common) and v.origin[1] > u.origin[1]
+        if common and v.origin[1] > u.origin[1]:
+            return True
+        # a replacement's patch is followed by whatever is inserted where the replaced range ended: those
+        # insertions are applied later whatever the registration order
+        for (b, end, n) in anchor_end.get(u.origin[1], {}).values():
+            if n > 0 and (b, end) in set(av.values()):
+                return True
+        return False
 
     for si, insns in enumerate(exp.insns):
         for k, e in enumerate(insns):
@@ -1384,7 +1397,15 @@ def call_at_section_end(case: Case) -> bool:
                 j = pos_index
                 while j < len(insns) and later_same_anchor(u, insns[j].unit):
                     j += 1
-                return j >= len(insns) or insns[j].unit.kind == "data"
+                if j >= len(insns) or insns[j].unit.kind == "data":
+                    return True
+                # an instruction that a patch put into a data block is not code that follows
+                o = insns[j].unit.origin
+                if o and o[0] == "patch":
+                    host = next((ed.b for ed in case.edits if ed.reg == o[1]), None)
+                    if host is not None and not case.blocks[host].code:
+                        return True
+                return False
 
             if u.kind == "call" and u.sym not in case.externs and nocode_after(k + 1):
                 return True
